@@ -5,7 +5,14 @@ pub mod oracle;
 pub mod rec;
 pub mod util;
 
+pub mod fe;
+pub mod modes;
+
+pub mod c01;
+pub mod c02;
+pub mod c03;
 pub mod c05;
+pub mod c12;
 
 use base::api::Registry;
 use base::json::{J, obj};
@@ -15,7 +22,7 @@ use std::time::Instant;
 type CheckFn = fn(&Ctx) -> Outcome;
 
 fn checks() -> Vec<(&'static str, CheckFn)> {
-    vec![("C05", c05::run as CheckFn)]
+    vec![("C01", c01::run as CheckFn), ("C02", c02::run as CheckFn), ("C03", c03::run as CheckFn), ("C05", c05::run as CheckFn), ("C12", c12::run as CheckFn)]
 }
 
 struct Args {
